@@ -192,6 +192,24 @@ func (p *Program) Extract(s Site) (val string, pos string, fn *ssa.Function, err
 	return "", "", fn, fmt.Errorf("bad spec %q", s.What)
 }
 
+// recipeEquivalent: accepted alternatives of single recipes whose property only needs a weaker
+// fact than textual equality.
+func recipeEquivalent(key, got, want string) bool {
+	switch key {
+	case "stream.readChunk.Open.dst":
+		// the plaintext buffer: an empty slice with room for a chunk that is not the ciphertext
+		// buffer r.buf (decrypting in place would destroy the input of the retry-as-final Open)
+		if strings.HasPrefix(got, "Slice(Field(Recv.") && strings.HasSuffix(got, "), _, 0)") && !strings.HasPrefix(got, "Slice(Field(Recv.buf)") {
+			return true
+		}
+		if strings.HasPrefix(got, "Make0(") {
+			n, err := strconv.Atoi(strings.TrimSuffix(strings.TrimPrefix(got, "Make0("), ")"))
+			return err == nil && n >= 65536
+		}
+	}
+	return false
+}
+
 // checkSites compares each site with the table.
 func checkSites(p *Program, r *Result, sites []Site, prop string) {
 	for _, s := range sites {
@@ -223,7 +241,7 @@ func checkSites(p *Program, r *Result, sites []Site, prop string) {
 				continue
 			}
 		}
-		if got == want {
+		if got == want || recipeEquivalent(s.Key, got, want) {
 			r.OK(sub, "recipe:"+s.Key, pos, "", Witness{Kind: "term", Pos: pos, Text: got})
 		} else {
 			r.Bad(sub, "recipe:"+s.Key, pos, "differs from the specification table\n   got  "+got+"\n   want "+want)
